@@ -25,6 +25,9 @@ SNIPPETS = [
     "x = a @ b ** -c // d % e << f >> g & h ^ i | ~j\nx = (a, )\nx = ()\nx = a,\nx = [*a, *b]\nx = {**a, 'k': 1}\nx = f(*a, k=1, **b)\n", "x = a[b](c).d[e:f]\nx = (a := 1)\nx = lambda: (yield)\n",
     "if True:\n    x = 1 # c\n    # only comment\n\n    y = 2\n", "x = '''multi\nline''' \"\"\"and\nmore\"\"\"\n", "x = {\n    'a': 1,  # c\n    'b': 2,\n}\n", "def f(\n    a,  # first\n    b=2,  # second (\n):\n    pass\n",
     "class A: pass\nclass B(A): x = 1; y = 2\ndef f(): return 1\n", "x = 1; y = 2; z = 3\n", "if a: pass\nelif b: pass\nelse: pass\n",
+    # a comment and a real parenthesis on a later line inside ONE gap between two tokens; triple-quoted strings with doubled quotes over several lines
+    "f(a, # c\n (b))\n", "y = (a  # c\n     ) + b\n", "z = g(  # (\n    (a),  # )\n    (b))\n", "w = [\n    (a  # x)\n     ),\n    (b)]\n",
+    'x = """Return ""quoted"" text.\n\n    More.\n    """\ny = 1\n', "x = \'\'\'It\'\'s ''here''\n ok\n\'\'\'\n", 'def f():\n    """Doc ""a"" b.\n\n    c ""d"".\n    """\n    return 1\n',
     "x = not a\ny = -a\nz = +a\nw = await_ if a else b\n", "x = a.b.c.d(e)(f)[g]\n", "x = \"a\" if b else 'c' \"d\"\n", "def f():\n    return\n\n\n\nx = 1\n",
 ]
 
